@@ -1252,7 +1252,7 @@ pub fn run_c14(ctx: &mut Ctx) {
     // whatever the spelling (child processes: the working directory is per process)
     {
         let exe = std::env::current_exe().unwrap();
-        let spellings: &[(&str, &str)] = &[("types", "types"), ("./types", "types"), ("types/", "types"), ("nest/types", "nest/types"), ("./nest/./types", "nest/types"), ("nest//types", "nest/types"), ("ty[p]es", "ty[p]es"), ("star*dir", "star*dir"), ("q?", "q?"), ("{a,b}", "{a,b}")];
+        let spellings: &[(&str, &str)] = &[("types", "types"), ("./types", "types"), ("types/", "types"), ("nest/types", "nest/types"), ("./nest/./types", "nest/types"), ("nest//types", "nest/types"), ("ty[p]es", "ty[p]es"), ("star*dir", "star*dir"), ("q?", "q?"), ("{a,b}", "{a,b}"), (".cache/types", ".cache/types"), ("up/../types", "types"), ("..dots/.t", "..dots/.t"), ("nest/../nest/types", "nest/types")];
         let tree: Vec<(&str, &str)> = vec![
             ("top.pyxis", "pub type Top { pub a: u32, }"),
             ("x.pyxis", "pub type X0 { pub a: u32, }"),
@@ -1273,6 +1273,10 @@ pub fn run_c14(ctx: &mut Ctx) {
             let files: Vec<(String, String)> = tree.iter().map(|(rel, t)| (format!("{real}/{rel}"), t.to_string())).collect();
             crate::drive::write_tree(&scratch.path, &files);
             std::fs::create_dir_all(scratch.path.join("out")).unwrap();
+            // a spelling that climbs back (`up/../types`) needs the directory it climbs out of
+            if let Some((before, _)) = spelt.split_once("/../") {
+                std::fs::create_dir_all(scratch.path.join(before)).unwrap();
+            }
             let mut cmd = std::process::Command::new(&exe);
             cmd.current_dir(&scratch.path).arg("child-build").arg(spelt).arg("out").arg("8");
             let r = crate::probe::run_tool(&mut cmd, std::time::Duration::from_secs(120));
